@@ -117,6 +117,15 @@ Section C11link.
     - exact (linked_and tok untok vn ver untok_name tok_untok vcontains perm perm_perm fuel a b r H Wa Wb).
     - exact (linked_or tok untok vn ver untok_name tok_untok vcontains perm perm_perm fuel a b r H Wa Wb).
   Qed.
+
+  (* with the python_version / python_full_version pair (vmerge_pv), on environments whose two interpreter variables are consistent *)
+  Theorem C11_link_pv k a b r : vmerge_link2 tok untok vn k a b = Some r ->
+    MarkerSingle.wf r = true
+    /\ forall e, good_env_pv tok ver e -> Marker.meval e r = MarkerSingle.bop k (Marker.atom_eval e a) (Marker.atom_eval e b).
+  Proof. exact (vmerge_link2_sound tok untok vn ver untok_name tok_untok k a b r). Qed.
+  Theorem C11_linked_normaliser vcontains perm (perm_perm : forall l, Permutation.Permutation (perm l) l) fuel :
+    MarkerSound.P (vmerge_link2 tok untok vn) vcontains perm (good_env_pv tok ver) fuel.
+  Proof. exact (linked2_sound tok untok vn ver untok_name tok_untok vcontains perm perm_perm fuel). Qed.
 End C11link.
 
 (* non-vacuity: python_full_version >= "3.9a1" : view, and back from the parsed [3.9a1, inf) with the release padded to 3.9.0a1 *)
@@ -133,5 +142,5 @@ Example C11_pv_runs :
   /\ vmerge_pv true (mkClause OpGt (relver 0 [3; 7]%N)) (mkClause OpGe (relver 0 [3; 8; 5]%N)) = Ret (VMAtom (mkClause OpGe (relver 0 [3; 8; 5]%N))).
 Proof. split; [split; [reflexivity | cbn; auto] | vm_compute; reflexivity]. Qed.
 
-Definition C11_all := (C11_view, C11_back, C11_padding, C11_merge, C11_normalize, C11_merge_pv, C11_reversed, C11_link, C11_linked_ops, link_runs, env0_good).
+Definition C11_all := (C11_view, C11_back, C11_padding, C11_merge, C11_normalize, C11_merge_pv, C11_reversed, C11_link, C11_linked_ops, C11_link_pv, C11_linked_normaliser, link_runs, env0_good, link2_runs, env0_good_pv).
 Redirect "C11.assumptions" Print Assumptions C11_all.
